@@ -10,6 +10,7 @@ import (
 	sdk "github.com/cosmos/cosmos-sdk/types"
 
 	assetstypes "github.com/ExocoreNetwork/exocore/x/assets/types"
+	avstypes "github.com/ExocoreNetwork/exocore/x/avs/types"
 	operatortypes "github.com/ExocoreNetwork/exocore/x/operator/types"
 )
 
@@ -19,6 +20,15 @@ type priceInfo struct {
 	dec int64
 }
 
+type c05AVS struct {
+	addr    string
+	epochID string
+	start   uint64
+	assets  []string
+	minSelf sdkmath.LegacyDec
+	optedIn map[string]bool
+}
+
 type c05Snapshot struct {
 	ledger   *Ledger
 	prices   map[string]priceInfo // assetID -> latest price
@@ -26,6 +36,7 @@ type c05Snapshot struct {
 	optedIn  map[string]bool
 	assets   []string
 	minSelf  sdkmath.LegacyDec
+	others   []*c05AVS // AVSs other than the chain's own
 }
 
 type c05Monitor struct {
@@ -34,6 +45,7 @@ type c05Monitor struct {
 	Checked    int
 	PriceMoves int
 	BelowMin   int
+	OtherAVS   int
 }
 
 func (m *c05Monitor) Name() string { return "voting-power" }
@@ -102,6 +114,37 @@ func (m *c05Monitor) snapshot(r *Run, ctx sdk.Context) *c05Snapshot {
 	} else {
 		s.minSelf = sdkmath.LegacyZeroDec()
 	}
+	// every other registered AVS, with its own asset list, minimum and epoch identifier
+	app.AVSManagerKeeper.IterateAVSInfo(ctx, func(_ int64, info avstypes.AVSInfo) bool {
+		if strings.EqualFold(info.AvsAddress, r.W.DogfoodAVS) {
+			return false
+		}
+		a := &c05AVS{addr: info.AvsAddress, epochID: info.EpochIdentifier, start: info.StartingEpoch, assets: sortedStrings(info.AssetIDs),
+			minSelf: sdkmath.LegacyNewDec(int64(info.MinSelfDelegation)), optedIn: map[string]bool{}}
+		for _, o := range r.W.Ops {
+			if oi, err := app.OperatorKeeper.GetOptedInfo(ctx, o.Addr.String(), info.AvsAddress); err == nil && oi != nil && oi.OptedOutHeight == operatortypes.DefaultOptedOutHeight {
+				a.optedIn[o.Addr.String()] = true
+			}
+		}
+		for _, id := range a.assets {
+			if _, ok := s.prices[id]; ok {
+				continue
+			}
+			var p priceInfo
+			_ = guard("probe", func() {
+				pr, _ := app.OracleKeeper.GetSpecifiedAssetsPrice(ctx, id)
+				if !pr.Value.IsNil() {
+					p = priceInfo{val: pr.Value.BigInt(), dec: int64(pr.Decimal)}
+				}
+			})
+			s.prices[id] = p
+			if ai, err := app.AssetsKeeper.GetStakingAssetInfo(ctx, id); err == nil {
+				s.decimals[id] = int64(ai.AssetBasicInfo.Decimals)
+			}
+		}
+		s.others = append(s.others, a)
+		return false
+	})
 	return s
 }
 
@@ -135,7 +178,99 @@ func (m *c05Monitor) AfterEndBlock(r *Run, ctx sdk.Context, _ abci.ResponseEndBl
 	m.prev = s
 }
 
+// otherAVSs: the same recomputation for every other AVS whose epoch ended in this block
+func (m *c05Monitor) otherAVSs(r *Run, ctx sdk.Context) {
+	if m.prev == nil {
+		return
+	}
+	app := r.Node.App
+	s := m.prev
+	h := ctx.BlockHeight()
+	for i := len(r.EpochCalls) - 1; i >= 0; i-- {
+		c := r.EpochCalls[i]
+		if c.Height != h {
+			break
+		}
+		if c.Kind != "end" || c.Subscriber != 0 {
+			continue
+		}
+		for _, a := range s.others {
+			if a.epochID != c.ID || c.Number < int64(a.start)-1 {
+				continue
+			}
+			avsTotal := new(big.Int)
+			skipped := false
+			for _, o := range r.W.Ops {
+				addr := o.Addr.String()
+				if !a.optedIn[addr] {
+					continue
+				}
+				total, self := new(big.Int), new(big.Int)
+				skip := false
+				for _, id := range a.assets {
+					pool, ok := s.ledger.Pools[addr+"/"+id]
+					if !ok {
+						continue
+					}
+					pr := s.prices[id]
+					if pr.val == nil || pool.TotalAmount.BigInt().BitLen() > 100 {
+						skip = true
+						break
+					}
+					div := new(big.Int).Exp(big.NewInt(10), big.NewInt(s.decimals[id]+pr.dec), nil)
+					total.Add(total, truncDec18(new(big.Rat).SetFrac(new(big.Int).Mul(pool.TotalAmount.BigInt(), pr.val), div)))
+					selfTok := new(big.Int)
+					if !pool.TotalShare.IsZero() {
+						q := new(big.Rat).Mul(ratOf(pool.OperatorShare), new(big.Rat).SetInt(pool.TotalAmount.BigInt()))
+						q.Quo(q, ratOf(pool.TotalShare))
+						selfTok = new(big.Int).Quo(roundDec18(q), ten18)
+					}
+					self.Add(self, truncDec18(new(big.Rat).SetFrac(new(big.Int).Mul(selfTok, pr.val), div)))
+				}
+				if skip {
+					skipped = true
+					continue
+				}
+				got, err := app.OperatorKeeper.GetOperatorOptedUSDValue(ctx, a.addr, addr)
+				if err != nil {
+					r.Violate(m.Name(), "opted-in-operator-has-recorded-value", "missing:other-avs", fmt.Sprintf("height %d: operator %s opted into AVS %s has no recorded USD value: %v", h, addr, a.addr, err))
+					return
+				}
+				active := new(big.Int)
+				if self.Cmp(a.minSelf.BigInt()) >= 0 {
+					active.Set(total)
+				} else {
+					m.BelowMin++
+					r.Probe("c05_self_below_minimum_other_avs")
+				}
+				avsTotal.Add(avsTotal, active)
+				m.Checked++
+				m.OtherAVS++
+				switch {
+				case got.TotalUSDValue.BigInt().Cmp(total) != 0:
+					r.Violate(m.Name(), "total-value-equals-priced-pools", "total:other-avs", fmt.Sprintf("height %d AVS %s (epoch %q %d) operator %s: recorded total %s, model %s", h, a.addr, c.ID, c.Number, addr, got.TotalUSDValue, decStr(total)))
+					return
+				case got.SelfUSDValue.BigInt().Cmp(self) != 0:
+					r.Violate(m.Name(), "self-value-equals-priced-self-share", "self:other-avs", fmt.Sprintf("height %d AVS %s operator %s: recorded self %s, model %s", h, a.addr, addr, got.SelfUSDValue, decStr(self)))
+					return
+				case got.ActiveUSDValue.BigInt().Cmp(active) != 0:
+					r.Violate(m.Name(), "active-value-is-total-iff-self-meets-minimum", "active:other-avs", fmt.Sprintf("height %d AVS %s operator %s: recorded active %s, model %s (self %s, minimum %s)", h, a.addr, addr, got.ActiveUSDValue, decStr(active), decStr(self), a.minSelf))
+					return
+				}
+			}
+			if avs, err := app.OperatorKeeper.GetAVSUSDValue(ctx, a.addr); err == nil && !skipped && avs.BigInt().Cmp(avsTotal) != 0 {
+				r.Violate(m.Name(), "avs-value-is-sum-of-active-values", "avs:other-avs", fmt.Sprintf("height %d: AVS %s value %s, sum of active values %s", h, a.addr, avs, decStr(avsTotal)))
+				return
+			}
+		}
+	}
+}
+
 func (m *c05Monitor) AfterBeginBlock(r *Run, ctx sdk.Context) {
+	m.otherAVSs(r, ctx)
+	if r.Viol != nil {
+		return
+	}
 	ended, _ := r.dogfoodEpochEnded(ctx.BlockHeight())
 	if !ended || m.prev == nil {
 		return
@@ -259,6 +394,10 @@ func c05Plan(p *PRNG, cfg Config, tier string) Plan {
 	}
 	o.DowntimeBursts, o.Evidence = p.Chance(1, 2), p.Chance(1, 2)
 	plan := GenLedgerPlan(p, cfg, o)
+	if f, ok := extraHostile["avs"]; ok && p.Chance(1, 2) {
+		// other AVSs with their own asset lists, minimum self delegation and epoch identifiers
+		plan = f(p, cfg, plan)
+	}
 	// oracle rounds: all validators agree on a new price for some feeder
 	prices := []string{"1", "2", "7", "250", "99999", "1000000000", "123456789012"}
 	for bi := range plan.Blocks {
@@ -274,7 +413,7 @@ func init() {
 	Register(&PropSpec{
 		ID: "C05", Level: "exploration",
 		Rule: "C01 workload (delegations, undelegations, associations, opt-in/out, slashing) plus oracle rounds in which all validators submit an agreed new price for a random feeder (asset decimals 0-18, price decimals 0-18, prices 1..1e12); at every BeginBlock that ends a dogfood epoch the recorded total/self/active USD value of every opted-in operator and the AVS value are recomputed from the state committed by the previous block with exact rationals (per-asset truncation to 18 digits, active = total iff self >= minimum) and compared; non-trivial = >= 3 operator values checked after >= 1 real price change AND >= 1 operator below the minimum self-delegation or >= 2 assets priced",
-		Assumptions: append([]string{"only the dogfood AVS is exercised here (other AVSs with other epoch identifiers are added with the C20 workload)", "the latest price is read through the oracle keeper's public getter"}, ledgerAssumptions...),
+		Assumptions: append([]string{"in half of the runs further AVSs (own asset lists, minimum self delegation 0..1e6, epoch identifier = dogfood / minute / hour) are registered and opted into; they are recomputed at the ends of their own epochs from the epoch preceding their starting epoch onwards", "the latest price is read through the oracle keeper's public getter"}, ledgerAssumptions...),
 		QuickRuns:   600, ThoroughRuns: 10000,
 		GenConfig: func(p *PRNG, tier string) Config {
 			c := SwarmConfig(p, SwarmOpts{EpochSecs: []int64{15, 20, 30}})
